@@ -2,5 +2,10 @@
 # Build everything the checks need from files on disk (offline).
 set -e
 cd "$(dirname "$0")"
-mkdir -p out evidence
-exit 0
+mkdir -p out/tmp out/replays evidence
+# every specification module must parse
+for m in spec/*.tla; do
+  ( cd spec && java -cp /opt/veriftools/tla/tla2tools.jar:/opt/veriftools/tla/CommunityModules-deps.jar tla2sany.SANY "$(basename "$m")" >/dev/null 2>&1 ) || { echo "SANY failed on $m"; exit 1; }
+done
+/venv/bin/python -c "import sys; sys.path.insert(0,'harness'); import protoextract; d=protoextract.extract(); print('protocol data:', len(d['proto']), 'interfaces')"
+echo setup ok
